@@ -317,7 +317,7 @@ theorem execCmd_noimp : (c : Cmd) → NoImp (execCmd g esc call c)
     split
     · rfl
     · rename_i sv st1 he
-      rw [execCases_noimp cases sv ctx st1 (hown.ext (evalIn_ext (fun _ => False) he)) hs, evalIn_imp he]
+      rw [execCases_noimp cases none (fun _ h => by cases h) sv ctx st1 (hown.ext (evalIn_ext (fun _ => False) he)) hs, evalIn_imp he]
   | .call _ name allData data params => by
     intro ctx st hown hs
     rw [execCmd]
@@ -396,9 +396,14 @@ theorem execConds_noimp : (cs : CondList) → NoImp (execConds g esc call cs)
       split
       · rw [walkBlockOf_noimp (execBody_noimp body) ctx st1 own1 hs, evalIn_imp he]
       · rw [execConds_noimp rest ctx st1 own1 hs, evalIn_imp he]
-theorem execCases_noimp : (cs : CaseList) → (sv : Value) → NoImp (execCases g esc call cs sv)
-  | .nil, _ => by intro ctx st _ _; rw [execCases]
-  | .cons _ values body rest, sv => by
+theorem execCases_noimp : (cs : CaseList) → (dflt : Option Run) → (∀ d, dflt = some d → NoImp d) → (sv : Value) →
+    NoImp (execCases g esc call cs dflt sv)
+  | .nil, dflt, hd, _ => by
+    intro ctx st hown hs; rw [execCases]
+    cases dflt with
+    | none => rfl
+    | some d => exact hd d rfl ctx st hown hs
+  | .cons _ values body rest, dflt, hd, sv => by
     intro ctx st hown hs
     rw [execCases]
     split
@@ -407,9 +412,8 @@ theorem execCases_noimp : (cs : CaseList) → (sv : Value) → NoImp (execCases 
       rw [walkBlockOf_noimp (execBody_noimp body) ctx st1 (hown.ext (matchCase_ext (fun _ => False) _ _ _ _ hm)) hs, matchCase_imp _ _ _ _ hm]
     · rename_i st1 hm
       have own1 := hown.ext (matchCase_ext (fun _ => False) _ _ _ _ hm)
-      split
-      · rw [walkBlockOf_noimp (execBody_noimp body) ctx st1 own1 hs, matchCase_imp _ _ _ _ hm]
-      · rw [execCases_noimp rest sv ctx st1 own1 hs, matchCase_imp _ _ _ _ hm]
+      rw [execCases_noimp rest _ (pickDefault_all (P := NoImp) (walkBlockOf_noimp (execBody_noimp body)) hd) sv ctx st1 own1 hs,
+        matchCase_imp _ _ _ _ hm]
 theorem execParams_noimp : (ps : ParamList) → (cd ctx : Scope) → (st : St) → Own ctx st → Own cd st → Shaped ctx →
     (execParams g esc call ps cd ctx st).st.impossible = st.impossible
   | .nil, _, _, _, _, _, _ => by rw [execParams]
